@@ -22,6 +22,7 @@ type Mode struct {
 	Jump     bool
 	Early    bool
 	Byz      bool
+	ByzAll   bool // Byzantine deviations are broadcasts to all honest participants (one deviation) instead of single deliveries
 	Liveness bool
 	Policy   Policy
 	Horizon  int
